@@ -340,37 +340,43 @@ QUICK = {
 # sized to finish within roughly 60-120 min on 16 cores / 62 GB (memory, not cores, is the limit); what a property's
 # harness families contain beyond these sets is listed in evidence as "not run in any tier" and is outside the claim
 THOROUGH = {
-    'C01': ['c01_prefiltered_*', 'c01_validate_?_ep', 'c01_validate_?_castling', 'c01_validate_?_king', 'c01_validate_?_pspecial', 'c01_validate_w_foreign',
-            'c01_validate_b_queen', 'c01_try_unchecked_?_ep', 'c01_try_unchecked_?_castling', 'c06_semilegal_gen_all_?', 'c06_semilegal_gen_capture_w',
-            'c06_semilegal_gen_simple_b', 'c06_semilegal_gen_simple_no_promote_w', 'c06_semilegal_gen_simple_promote_b', 'c06_semilegal_gen_pawns_all_?',
-            ],
-    'C02': ['c02_make_move_step_?_*', 'c02_make_raw_step_?_ep', 'c02_make_raw_step_?_castling', 'c02_make_raw_step_?_pspecial', 'c02_make_raw_step_w_king', 'c02_make_raw_step_b_queen',
-            'c02_make_raw_step_w_foreign', 'c02_make_move_step_direct_w_ep', 'c02_make_move_step_direct_b_castling', 'c09_san_simple_pawn_refused',
-            'c09_san_into_move_castling_?', 'c09_san_into_move_pawnshort_w', 'c09_san_into_move_simple_b', 'c10_uci_accept_*', 'c10_uci_parse_exact',
-            'c10_uci_string_readers_w', 'c13_chain_step_s0_p0_*', 'c13_chain_step_s1_p1_king'],
+    # only families with at least one instance that passed on the pinned tree within its caps are listed; harnesses that
+    # exist but are listed nowhere (S6 wiring / legal lists, direct probe, FEN, chain equality, long walkers, SAN candidate
+    # search for Simple / PawnCaptureShort) did not fit or are unsound and claim nothing (DESIGN.md sections 6 and 8)
+    'C01': ['c01_prefiltered_w_*', 'c01_prefiltered_b_ep', 'c01_prefiltered_b_castling', 'c01_prefiltered_b_king', 'c01_prefiltered_b_pspecial',
+            'c01_validate_?_ep', 'c01_validate_w_castling', 'c01_validate_b_king', 'c01_try_unchecked_?_ep', 'c01_try_unchecked_b_castling',
+            'c06_semilegal_gen_pawns_all_?', 'c06_semilegal_gen_all_w'],
+    'C02': ['c02_make_move_step_w_ep', 'c02_make_move_step_w_castling', 'c02_make_move_step_w_pspecial', 'c02_make_move_step_w_king', 'c02_make_move_step_b_ep',
+            'c02_make_move_step_b_castling', 'c02_make_move_step_b_foreign', 'c02_make_raw_step_w_*', 'c02_make_raw_step_b_ep', 'c02_make_raw_step_b_pspecial',
+            'c02_make_raw_step_b_foreign', 'c02_make_move_step_direct_w_ep', 'c09_san_simple_pawn_refused', 'c09_san_into_move_castling_?',
+            'c10_uci_accept_semi_w', 'c10_uci_accept_make_b', 'c10_uci_parse_exact', 'c13_chain_push_pop_s0_p0_castling', 'c13_chain_push_pop_s1_p0_ep',
+            'c13_chain_step_s0_p0_castling'],
     'C03': ['c03_make_unmake_*'],
-    'C04': ['c03_make_unmake_*', 'c04_nested_w_ep', 'c04_nested_b_castling', 'c04_nested_w_pspecial', 'c04_nested_b_king', 'c13_chain_step_s0_p1_other', 'c17_walker_s5_p3_concrete_2_2'],
+    'C04': ['c03_make_unmake_*', 'c04_nested_w_ep', 'c04_nested_b_castling', 'c13_chain_push_pop_s0_p0_castling', 'c13_chain_push_pop_s1_p0_ep', 'c17_walker_s0_p3_concrete_1_2'],
     'C05': ['c05_hash_features', 'c05_scratch_hash_def', 'c05_hash_delta_*', 'c03_make_unmake_?_pspecial', 'c03_make_unmake_?_ep', 'c03_make_unmake_?_castling',
             'c11_validate_normal_w'],
-    'C06': ['c06_wellformed_exact', 'c06_semilegal_validator_*', 'c06_semilegal_gen_*'],
+    'C06': ['c06_wellformed_exact', 'c06_semilegal_validator_*', 'c06_semilegal_gen_pawns_all_?', 'c06_semilegal_gen_all_w', 'c06_semilegal_gen_capture_b'],
     'C07': ['c07_outcome_classification_*', 'c07_outcome_lone_king_?', 'c07_castling_never_only_move_?'],
-    'C09': ['c09_san_simple_pawn_refused', 'c09_san_into_move_*', 'c09_san_from_move_?_ep', 'c09_san_from_move_?_castling', 'c09_san_from_move_?_pspecial',
-            'c09_san_from_move_w_pawn', 'c09_san_from_move_b_king', 'c09_san_from_move_w_knight', 'c09_san_from_move_b_rook', 'c09_san_from_move_w_queen',
-            'c12_san_parse_total_5', 'c12_san_parse_total_7'],
-    'C10': ['c10_*'],
+    'C09': ['c09_san_simple_pawn_refused', 'c09_san_into_move_castling_?', 'c09_san_into_move_uci_w', 'c09_san_into_move_pawnmove_b', 'c09_san_into_move_pawncapture_w',
+            'c09_san_from_move_w_ep', 'c09_san_from_move_b_castling', 'c12_san_parse_total_5', 'c12_san_parse_total_7'],
+    'C10': ['c10_uci_struct_roundtrip_*', 'c10_uci_accept_semi_?', 'c10_uci_accept_legal_w', 'c10_uci_accept_make_b', 'c10_uci_parse_exact', 'c10_uci_text_roundtrip'],
     'C11': ['c11_validate_*'],
     'C12': ['c12_coord_*', 'c12_color_parse', 'c12_cell_parse', 'c12_castling_*', 'c12_san_parse_total_*', 'c10_uci_parse_exact', 'c10_uci_text_roundtrip'],
-    'C13': ['c13_chain_step_*', 'c13_chain_push_pop_*', 'c13_chain_eq_*'],
-    'C14': ['c14_*', 'c07_outcome_classification_*', 'c07_outcome_lone_king_?', 'c13_chain_step_s5_*', 'c13_chain_step_s3_p0_*', 'c13_chain_step_s2_p0_rook', 'c13_chain_step_s4_p0_king'],
+    'C13': ['c13_chain_step_s0_p0_castling', 'c13_chain_step_s0_p0_ep', 'c13_chain_step_s0_p0_pspecial', 'c13_chain_step_s0_p0_king', 'c13_chain_step_s0_p0_other',
+            'c13_chain_step_s0_p1_other', 'c13_chain_step_s0_p2_other', 'c13_chain_step_s1_p0_castling', 'c13_chain_step_s1_p0_ep', 'c13_chain_step_s1_p0_other',
+            'c13_chain_step_s1_p1_other', 'c13_chain_step_s2_p0_rook', 'c13_chain_step_s2_p0_other', 'c13_chain_step_s3_p0_queen', 'c13_chain_step_s3_p0_other',
+            'c13_chain_step_s4_p0_king', 'c13_chain_step_s4_p0_other', 'c13_chain_step_s5_p0_other', 'c13_chain_push_pop_s0_p0_castling', 'c13_chain_push_pop_s0_p0_ep',
+            'c13_chain_push_pop_s0_p0_pspecial', 'c13_chain_push_pop_s0_p0_king', 'c13_chain_push_pop_s1_p0_ep', 'c13_chain_push_pop_s1_p0_castling'],
+    'C14': ['c14_*', 'c07_outcome_classification_*', 'c07_outcome_lone_king_b', 'c13_chain_step_s3_p0_other', 'c13_chain_step_s0_p2_other', 'c13_chain_step_s5_p0_other',
+            'c13_chain_step_s2_p0_other'],
     'C15': ['c15_*'],
     'C16': ['c16_*'],
-    'C17': ['c17_*'],
-    'C18': ['c18_mirror_move_v_?_ep', 'c18_mirror_move_v_?_castling', 'c18_mirror_move_v_?_king', 'c18_mirror_move_v_w_pspecial', 'c18_mirror_move_v_b_pawn',
-            'c18_mirror_move_v_w_queen', 'c18_mirror_move_v_b_knight', 'c18_mirror_move_v_w_foreign', 'c18_mirror_move_h_?_pspecial', 'c18_mirror_move_h_?_ep',
-            'c18_mirror_move_h_w_king', 'c18_mirror_move_h_b_rook', 'c18_mirror_outcome_*', 'c18_mirror_gen_v_w', 'c18_mirror_gen_h_b', 'c06_semilegal_gen_pawns_all_?'],
-    'C19': ['c15_bishop_exact', 'c15_rook_exact', 'c05_scratch_hash_def', 'c16_attackers_exact_w_*', 'c16_check_queries_exact_b', 'c06_semilegal_validator_?_castling', 'c06_semilegal_validator_?_ep',
-            'c06_semilegal_validator_w_queen', 'c06_semilegal_validator_b_pspecial', 'c03_make_unmake_?_pspecial', 'c03_make_unmake_?_castling', 'c03_make_unmake_w_ep',
-            'c06_semilegal_gen_all_?', 'c06_semilegal_gen_pawns_all_?', 'c11_validate_accept_?', 'c01_prefiltered_w_queen', 'c01_prefiltered_b_ep'],
+    'C17': ['c17_walker_s0_p3_concrete_1_2', 'c17_walker_s1_p3_concrete_0_3'],
+    'C18': ['c18_mirror_move_v_?_ep', 'c18_mirror_move_v_?_castling', 'c18_mirror_move_v_w_king', 'c18_mirror_move_v_b_pspecial', 'c18_mirror_move_v_w_queen',
+            'c18_mirror_move_h_w_pspecial', 'c18_mirror_move_h_b_ep', 'c18_mirror_outcome_*', 'c06_semilegal_gen_pawns_all_?'],
+    'C19': ['c15_bishop_exact', 'c15_rook_exact', 'c05_scratch_hash_def', 'c16_attackers_exact_w_*', 'c16_check_queries_exact_b', 'c06_semilegal_validator_?_castling',
+            'c06_semilegal_validator_?_ep', 'c06_semilegal_validator_w_queen', 'c06_semilegal_validator_b_pspecial', 'c03_make_unmake_?_pspecial',
+            'c03_make_unmake_?_castling', 'c03_make_unmake_w_ep', 'c06_semilegal_gen_pawns_all_?', 'c11_validate_accept_?', 'c01_prefiltered_w_queen'],
     'C20': ['c20_*', 'c12_coord_*', 'c12_color_parse', 'c12_cell_parse', 'c12_castling_*'],
 }
 
